@@ -16,8 +16,9 @@ def sh(cmd, cwd=None, timeout=1800, env=None):
     return subprocess.run(cmd, shell=True, cwd=cwd, stdout=subprocess.PIPE, stderr=subprocess.STDOUT, text=True, timeout=timeout, env=env)
 
 
-def suite(wt):
-    r = sh(NEXTEST, cwd=wt)
+def suite(wt, hooks=False):
+    env = dict(os.environ, RUSTFLAGS="--cfg rce_verif", CARGO_TARGET_DIR=os.path.join(wt, "target/verif")) if hooks else None
+    r = sh(NEXTEST, cwd=wt, env=env)
     m = re.search(r"(\d+) tests run: (\d+) passed(?:, (\d+) failed)?", r.stdout)
     failed = re.findall(r"^\s+FAIL \[.*?\] (\S+ \S+)", r.stdout, re.M)
     return (int(m.group(1)), int(m.group(2)), sorted(set(failed))) if m else (0, 0, ["<no summary>: " + r.stdout[-400:]])
@@ -33,13 +34,19 @@ def run_demo(wt, d, with_change):
         r = sh(f"git apply {d}/{f}", cwd=wt)
         if r.returncode != 0:
             return None, "demo.diff does not apply: " + r.stdout[-300:]
-        n, ok, failed = suite(wt)
+        hooks = "rce_verif" in open(os.path.join(d, f)).read()
+        n, ok, failed = suite(wt, hooks)
         sh(f"git apply -R {d}/{f}", cwd=wt)
         return (n == ok and n > 329), f"{ok}/{n} pass; failed: {failed[:4]}"
     b = sh("cargo build --release --offline", cwd=wt)
     if b.returncode != 0:
         return None, "release build failed: " + b.stdout[-300:]
-    cmd = f"python3 {d}/{f}" if f.endswith(".py") else f"bash {d}/{f}"
+    # the scripts expect to live in <worktree>/SEEDED/<X>/ (that is where they were written)
+    inwt = os.path.join(wt, "SEEDED", "X")
+    shutil.rmtree(os.path.join(wt, "SEEDED"), ignore_errors=True)
+    os.makedirs(inwt)
+    shutil.copy(os.path.join(d, f), inwt)
+    cmd = f"python3 SEEDED/X/{f}" if f.endswith(".py") else f"bash SEEDED/X/{f}"
     r = sh(cmd, cwd=wt, env=env, timeout=900)
     return r.returncode == 0, f"exit {r.returncode}: " + r.stdout[-300:].replace("\n", " | ")
 
